@@ -1,6 +1,7 @@
 package mgrx
 
 import (
+	"hash/fnv"
 	"bufio"
 	"context"
 	"encoding/json"
@@ -137,6 +138,16 @@ func runSubCase(c subCase) (subObs, error) {
 	}
 	w.n = n
 	defer n.Stop()
+	// in half of the cases the voucher type also has a transport configurer that returns an option: per-transfer subscribers are then
+	// registered on a path that also stores configurer options - still exactly once
+	if h := fnv.New32a(); true {
+		h.Write([]byte(c.Case))
+		if h.Sum32()%2 == 0 {
+			_ = n.M.RegisterTransportConfigurer(datatransfer.TypeIdentifier("vt"), func(datatransfer.ChannelID, datatransfer.TypedVoucher) []datatransfer.TransportOption {
+				return []datatransfer.TransportOption{func(datatransfer.ChannelID, datatransfer.Transport) error { return nil }}
+			})
+		}
+	}
 	ref := &recSub{}
 	n.M.SubscribeToEvents(ref.cb) // reference subscriber, active for the whole run
 	w0 := ds.NWrites()
